@@ -284,6 +284,7 @@ func (nc *nodeCase) applyEvent(n *node, e nodeEvent) (res string) {
 			b.SupLinks.AddSupLink(sp.srcHeight, srcHash, msg.Signature, sp.order)
 		}
 		_, err := n.chain.VerifNodeProcessBlock(b)
+		n.quiesce()
 		if err != nil {
 			return "err"
 		}
